@@ -9,6 +9,12 @@ def nps(tier, quick, thorough):
     return thorough if tier == "thorough" else quick
 
 
+def ppn_for(n):
+    """processes per node for a launch of n ranks: full nodes only (a ragged last node is the known node-aware finding,
+    exercised by C03/C04) and more than one node whenever n > 1, so that the three-step exchanges are not degenerate"""
+    return 2 if n % 2 == 0 else 1
+
+
 def simple(harness, quick_np, thorough_np, **kw):
     def configs(tier, seed):
         return [{"tag": f"{harness}-np{n}", "harness": harness, "np": n} for n in nps(tier, quick_np, thorough_np)]
@@ -56,8 +62,10 @@ PROPS["C18"] = dict(
 
 PROPS["C07"] = dict(
     module="RaptorModel.Props.C07",
-    harnesses=["h_c07"], asan=True,
-    configs=simple("h_c07", [1], [1]),
+    harnesses=["h_c07", "h_c07p"],
+    configs=lambda tier, seed: [{"tag": "h_c07-np1", "harness": "h_c07", "np": 1, "asan": True}] +
+        [{"tag": f"h_c07p-conv-np{n}", "harness": "h_c07p", "np": n, "args": ["conv"], "asan": n in (1, 2)}
+         for n in nps(tier, [1, 2, 3, 4, 7], list(range(1, 17)))],
     rule=("random sparse matrices (0..10 rows/cols, rectangular, empty, duplicates, explicit zeros, unsorted), every format; "
           "single operations and chains of <= 3 conversions with sort/move_diag in between (each link one case); add/subtract "
           "incl. exact cancellation. Non-trivial = input has at least one stored entry; distinct = distinct case text."),
@@ -68,14 +76,16 @@ PROPS["C07"] = dict(
 
 def c02_configs(tier, seed):
     cfgs = [{"tag": "h_c02-seq", "harness": "h_c02", "np": 1, "args": ["seq"], "asan": True}]
+    for n in nps(tier, [1, 2, 3, 5], [1, 2, 3, 4, 5, 6, 8, 12, 16]):
+        cfgs.append({"tag": f"h_c07p-bspmv-np{n}", "harness": "h_c07p", "np": n, "args": ["bspmv"], "asan": n == 2})
     for n in nps(tier, [1, 2, 3, 4, 7], list(range(1, 17))):
-        cfgs.append({"tag": f"h_c02-par-np{n}", "harness": "h_c02", "np": n, "args": ["par"]})
+        cfgs.append({"tag": f"h_c02-par-np{n}", "harness": "h_c02", "np": n, "args": ["par"], "env": {"PPN": ppn_for(n)}})
     return cfgs
 
 
 PROPS["C02"] = dict(
     module="RaptorModel.Props.C02",
-    harnesses=["h_c02"],
+    harnesses=["h_c02", "h_c07p"],
     configs=c02_configs,
     rule=("sequential: random matrices (0..10, rectangular, empty, duplicates, explicit zeros) in COO/CSR/CSC x 7 kernels; "
           "distributed: random global triplets assembled through ParCOOMatrix::add_value+finalize on the default layout, explicit random "
@@ -90,7 +100,7 @@ def seqpar_configs(h, quick_np, thorough_np):
     def configs(tier, seed):
         cfgs = [{"tag": f"{h}-seq", "harness": h, "np": 1, "args": ["seq"], "asan": True}]
         for n in nps(tier, quick_np, thorough_np):
-            cfgs.append({"tag": f"{h}-par-np{n}", "harness": h, "np": n, "args": ["par"]})
+            cfgs.append({"tag": f"{h}-par-np{n}", "harness": h, "np": n, "args": ["par"], "env": {"PPN": ppn_for(n)}})
         return cfgs
     return configs
 
@@ -205,7 +215,7 @@ def amg_configs(mode, quick_np, thorough_np):
     def configs(tier, seed):
         # PPN divides np (ragged last nodes are the known node-aware finding, exercised by C03/C04)
         return [{"tag": f"h_amg-{mode}-np{n}", "harness": "h_amg", "np": n, "args": [mode],
-                 "env": {"PPN": 2 if n % 2 == 0 else n}} for n in nps(tier, quick_np, thorough_np)] + \
+                 "env": {"PPN": ppn_for(n)}} for n in nps(tier, quick_np, thorough_np)] + \
                [{"tag": f"h_amg-{mode}-seqclasses", "harness": "h_amg", "np": 1, "args": [mode, "seq"]}]
     return configs
 
@@ -281,7 +291,7 @@ def rs_configs(prop, quick_np, thorough_np):
     def configs(tier, seed):
         cfgs = [{"tag": f"h_rs-{prop}-seq", "harness": "h_rs", "np": 1, "args": [prop, "seq"], "asan": True}]
         for n in nps(tier, quick_np, thorough_np):
-            cfgs.append({"tag": f"h_rs-{prop}-par-np{n}", "harness": "h_rs", "np": n, "args": [prop, "par"], "env": {"PPN": 2 if n % 2 == 0 else n}})
+            cfgs.append({"tag": f"h_rs-{prop}-par-np{n}", "harness": "h_rs", "np": n, "args": [prop, "par"], "env": {"PPN": ppn_for(n)}})
         return cfgs
     return configs
 
@@ -314,7 +324,7 @@ def sa_configs(prop, quick_np, thorough_np):
     def configs(tier, seed):
         cfgs = [{"tag": f"h_sa-{prop}-seq", "harness": "h_sa", "np": 1, "args": [prop, "seq"], "asan": True}]
         for n in nps(tier, quick_np, thorough_np):
-            cfgs.append({"tag": f"h_sa-{prop}-par-np{n}", "harness": "h_sa", "np": n, "args": [prop, "par"], "env": {"PPN": 2 if n % 2 == 0 else n}})
+            cfgs.append({"tag": f"h_sa-{prop}-par-np{n}", "harness": "h_sa", "np": n, "args": [prop, "par"], "env": {"PPN": ppn_for(n)}})
         return cfgs
     return configs
 
